@@ -15,7 +15,7 @@ from ..engine import terms
 from ..roles import all_roles
 from ..terms import show
 from ..util import src, node_calls, call_attr, norm_stmt, own_calls
-from .c15 import loop_nodes, loop_exit_edges
+from .c15 import loop_nodes, loop_exit_edges, loop_body_nodes
 
 LEVEL = "other"
 
@@ -294,7 +294,7 @@ def _only_deadline_raises(ctx, R, roles, T):
     g = ctx.cfg(f)
     heads = [n for n in g.live_nodes() if n.kind == "test" and isinstance(n.ast, ast.While)]
     for head in heads:
-        inside = set(loop_nodes(g, head))
+        inside = set(loop_body_nodes(g, head))
         dl = deadline_tests(ctx, f, head)
         allowed = set()
         for (tn, bound, start, guarded) in dl:
